@@ -72,6 +72,7 @@ Qed.
 Section Proofs.
   Variable cn : cls -> string.
   Variable wiring : list (nat * cls).
+  Variable skipnull reread : bool.
   Variable ncache : nat.
   Hypothesis wiring_nodup : NoDup (map fst wiring).
   Hypothesis wiring_bound : forall i c, In (i, c) wiring -> i < ncache.
@@ -152,20 +153,35 @@ Section Proofs.
 
   Definition slot_ok (c : cls) (slot : option nat) : Prop := forall i, slot = Some i -> wired_slot wiring c = Some i.
 
-  (* what a lookup of class c knows at program point p; refers to the immutable declaration only, hence is
-     unaffected by the steps of other threads *)
-  Definition pc_ok (c : cls) (p : pc) : Prop :=
+  (* what a lookup of class c knows at program point p.  Everything but the last clause refers to the immutable
+     declaration only; the clause for the re-read says that the word about to be read again is filled when the class is
+     declared -- filled words never change (filled_stays), so steps of other threads cannot disturb it *)
+  Definition pc_ok (T : trec) (c : cls) (p : pc) : Prop :=
     match p with
     | PStart _ => True
     | PCacheRead i => wired_slot wiring c = Some i
     | PPtrScan _ slot => slot_ok c slot
     | PNameScan k slot => slot_ok c slot /\ nomatch D c k
     | PCacheWrite i v => wired_slot wiring c = Some i /\ v = dspec D c
+    | PCacheReread i => wired_slot wiring c = Some i /\
+                        forall x, dspec D c = Some x -> nth_error (cache T) i = Some (Some x)
     | PDone v => v = dspec D c
     end.
 
-  Lemma finish_ok : forall c slot v, slot_ok c slot -> v = dspec D c -> pc_ok c (finish slot v).
-  Proof. intros c [i|] v Hs Hv; simpl; auto. Qed.
+  Definition filled_stays (T T' : trec) : Prop :=
+    forall i x, nth_error (cache T) i = Some (Some x) -> nth_error (cache T') i = Some (Some x).
+
+  Lemma filled_stays_refl : forall T, filled_stays T T.
+  Proof. intros T i x H; exact H. Qed.
+
+  Lemma pc_ok_mono : forall T T' c p, filled_stays T T' -> pc_ok T c p -> pc_ok T' c p.
+  Proof.
+    intros T T' c p Hf Hp. destruct p; simpl in *; auto.
+    destruct Hp as [Hw Hx]. split; [exact Hw|]. intros x Hd. apply Hf. apply Hx. exact Hd.
+  Qed.
+
+  Lemma finish_ok : forall T c slot v, slot_ok c slot -> v = dspec D c -> pc_ok T c (finish slot v).
+  Proof. intros T c [i|] v Hs Hv; simpl; auto. Qed.
 
   Lemma inv_cold : forall T, decl (trips T) = D -> List.length (cache T) = ncache ->
     (forall i x, nth_error (cache T) i = Some x -> x = None) ->
@@ -177,43 +193,50 @@ Section Proofs.
   Qed.
 
   (* ---------- one small step ---------- *)
-  Theorem step_ok : forall c T p, inv T -> pc_ok c p ->
-    exists T' p', step cn wiring c T p = Some (T', p') /\ inv T' /\ pc_ok c p'.
+  Theorem step_ok : forall c T p, inv T -> pc_ok T c p ->
+    exists T' p', step cn wiring skipnull reread c T p = Some (T', p') /\ inv T' /\ pc_ok T' c p' /\ filled_stays T T'.
   Proof.
     intros c T p [Hd [[Hl Hc] Hm]] Hp.
     assert (HI : inv T) by (split; [exact Hd | split; [split; assumption | assumption]]).
-    destruct p as [k | i | k slot | k slot | i v | v]; simpl in *.
+    pose proof (filled_stays_refl T) as HR.
+    destruct p as [k | i | k slot | k slot | i v | i | v]; simpl in *.
     - (* PStart *)
       destruct k.
       + destruct (wired_slot wiring c) as [i|] eqn:E.
-        * exists T, (PCacheRead i). split; [reflexivity|]. split; [exact HI|]. exact E.
-        * exists T, (PPtrScan 0 None). split; [reflexivity|]. split; [exact HI|]. intros i Hi; discriminate.
-      + exists T, (PPtrScan 0 None). split; [reflexivity|]. split; [exact HI|]. intros i Hi; discriminate.
+        * exists T, (PCacheRead i). split; [reflexivity|]. split; [exact HI|]. split; [exact E | exact HR].
+        * exists T, (PPtrScan 0 None). split; [reflexivity|]. split; [exact HI|]. split; [|exact HR]. intros i Hi; discriminate.
+      + exists T, (PPtrScan 0 None). split; [reflexivity|]. split; [exact HI|]. split; [|exact HR]. intros i Hi; discriminate.
     - (* PCacheRead *)
       destruct (nth_error (cache T) i) as [[v|]|] eqn:E.
-      + exists T, (PDone (Some v)). split; [reflexivity|]. split; [exact HI|]. simpl. symmetry. eapply Hc; eauto.
-      + exists T, (PPtrScan 0 (Some i)). split; [reflexivity|]. split; [exact HI|].
+      + assert (Hv : dspec D c = Some v) by (eapply Hc; eauto).
+        exists T, (if reread then PCacheReread i else PDone (Some v)).
+        split; [reflexivity|]. split; [exact HI|]. split; [|exact HR].
+        destruct reread; simpl.
+        * split; [exact Hp|]. intros x Hx. rewrite Hv in Hx. inversion Hx; subst. exact E.
+        * symmetry; exact Hv.
+      + exists T, (PPtrScan 0 (Some i)). split; [reflexivity|]. split; [exact HI|]. split; [|exact HR].
         intros j Hj. inversion Hj; subst; assumption.
       + exfalso. apply nth_error_None in E. pose proof (wired_bound _ _ Hp). lia.
     - (* PPtrScan *)
       destruct (nth_error (trips T) k) as [t|] eqn:E.
       + destruct (opt_cls_eqb (t_memo t) c) eqn:Em.
-        * exists T, (finish slot (Some (t_inst t))). split; [reflexivity|]. split; [exact HI|].
+        * exists T, (finish slot (Some (t_inst t))). split; [reflexivity|]. split; [exact HI|]. split; [|exact HR].
           apply finish_ok; auto.
           unfold opt_cls_eqb in Em. destruct (t_memo t) as [x|] eqn:Ex; [|discriminate].
           apply Nat.eqb_eq in Em; subst x.
           destruct (Hm k t c E Ex) as [He Hn].
           symmetry.
           apply (dspec_first D c k (t_name t, t_inst t)); auto. rewrite <- Hd. apply decl_nth; assumption.
-        * exists T, (PPtrScan (S k) slot). split; [reflexivity|]. split; [exact HI|]. exact Hp.
-      + exists T, (PNameScan 0 slot). split; [reflexivity|]. split; [exact HI|]. split; [exact Hp | apply nomatch_0].
+        * exists T, (PPtrScan (S k) slot). split; [reflexivity|]. split; [exact HI|]. split; [exact Hp | exact HR].
+      + exists T, (PNameScan 0 slot). split; [reflexivity|]. split; [exact HI|]. split; [|exact HR].
+        split; [exact Hp | apply nomatch_0].
     - (* PNameScan *)
       destruct Hp as [Hs Hn].
       destruct (nth_error (trips T) k) as [t|] eqn:E.
       + assert (Ed : nth_error D k = Some (t_name t, t_inst t)) by (rewrite <- Hd; apply decl_nth; assumption).
         destruct (String.eqb (t_name t) (cn c)) eqn:Ee.
         * exists (mkTrec (cache T) (set_memo k c (trips T))), (finish slot (Some (t_inst t))).
-          split; [reflexivity|]. split.
+          split; [reflexivity|]. split; [|split].
           -- split; [simpl; rewrite decl_set_memo; exact Hd|]. split; [split; assumption|].
              intros k' t' c' Hk' Hm'. simpl in Hk'. unfold set_memo in Hk'. rewrite nth_error_set_nth in Hk'.
              destruct (Nat.eqb k' k) eqn:Ek.
@@ -222,66 +245,104 @@ Section Proofs.
              ++ eapply Hm; eauto.
           -- apply finish_ok; auto. symmetry.
              apply (dspec_first D c k (t_name t, t_inst t)); auto.
-        * exists T, (PNameScan (S k) slot). split; [reflexivity|]. split; [exact HI|]. split; [exact Hs|].
-          eapply nomatch_S; eauto.
-      + exists T, (finish slot None). split; [reflexivity|]. split; [exact HI|].
+          -- intros i x Hix. exact Hix.
+        * exists T, (PNameScan (S k) slot). split; [reflexivity|]. split; [exact HI|]. split; [|exact HR].
+          split; [exact Hs|]. eapply nomatch_S; eauto.
+      + exists T, (finish slot None). split; [reflexivity|]. split; [exact HI|]. split; [|exact HR].
         apply finish_ok; auto. symmetry. eapply dspec_none; eauto.
         rewrite <- Hd. apply decl_nth_none; assumption.
     - (* PCacheWrite *)
       destruct Hp as [Hw Hv].
       pose proof (wired_bound _ _ Hw) as Hb.
       assert (Hlt : Nat.ltb i (List.length (cache T)) = true) by (apply Nat.ltb_lt; lia).
-      rewrite Hlt.
-      exists (mkTrec (set_nth i (fun _ => v) (cache T)) (trips T)), (PDone v).
-      split; [reflexivity|]. split; [|exact Hv].
-      split; [exact Hd|]. split; [|exact Hm].
-      split; [simpl; rewrite length_set_nth; exact Hl|].
-      intros i' v' c' Hi' Hw'. simpl in Hi'. rewrite nth_error_set_nth in Hi'.
-      destruct (Nat.eqb i' i) eqn:Ei.
-      + apply Nat.eqb_eq in Ei; subst i'.
-        assert (c = c') by (eapply wired_unique; eauto). subst c'.
-        destruct (nth_error (cache T) i); simpl in Hi'; [|discriminate].
-        inversion Hi'. congruence.
-      + eapply Hc; eauto.
-    - exists T, (PDone v). split; [reflexivity|]. split; [exact HI|]. exact Hp.
+      (* the state after a real store *)
+      assert (Hstore : inv (mkTrec (set_nth i (fun _ => v) (cache T)) (trips T)) /\
+                       filled_stays T (mkTrec (set_nth i (fun _ => v) (cache T)) (trips T)) /\
+                       (forall x, v = Some x -> nth_error (set_nth i (fun _ => v) (cache T)) i = Some (Some x))).
+      { split; [|split].
+        - split; [exact Hd|]. split; [|exact Hm].
+          split; [simpl; rewrite length_set_nth; exact Hl|].
+          intros i' v' c' Hi' Hw'. simpl in Hi'. rewrite nth_error_set_nth in Hi'.
+          destruct (Nat.eqb i' i) eqn:Ei.
+          + apply Nat.eqb_eq in Ei; subst i'.
+            assert (c = c') by (eapply wired_unique; eauto). subst c'.
+            destruct (nth_error (cache T) i); simpl in Hi'; [|discriminate].
+            inversion Hi'. congruence.
+          + eapply Hc; eauto.
+        - intros j x Hj. simpl. rewrite nth_error_set_nth.
+          destruct (Nat.eqb j i) eqn:Ej; [|exact Hj].
+          apply Nat.eqb_eq in Ej; subst j. rewrite Hj. simpl.
+          assert (dspec D c = Some x) by (eapply Hc; eauto). congruence.
+        - intros x Hx. rewrite nth_error_set_nth. rewrite Nat.eqb_refl.
+          destruct (nth_error (cache T) i) eqn:En; simpl; [congruence|].
+          apply nth_error_None in En. lia. }
+      destruct Hstore as [HIs [HFs Hfill]].
+      destruct v as [x|].
+      + rewrite Hlt.
+        exists (mkTrec (set_nth i (fun _ => Some x) (cache T)) (trips T)), (if reread then PCacheReread i else PDone (Some x)).
+        split; [reflexivity|]. split; [exact HIs|]. split; [|exact HFs].
+        destruct reread; simpl; [|exact Hv].
+        split; [exact Hw|]. intros y Hy. rewrite <- Hv in Hy. inversion Hy; subst. apply Hfill. reflexivity.
+      + destruct skipnull.
+        * exists T, (if reread then PCacheReread i else PDone None).
+          split; [reflexivity|]. split; [exact HI|]. split; [|exact HR].
+          destruct reread; simpl; [|exact Hv].
+          split; [exact Hw|]. intros y Hy. rewrite <- Hv in Hy. discriminate.
+        * rewrite Hlt.
+          exists (mkTrec (set_nth i (fun _ => None) (cache T)) (trips T)), (if reread then PCacheReread i else PDone None).
+          split; [reflexivity|]. split; [exact HIs|]. split; [|exact HFs].
+          destruct reread; simpl; [|exact Hv].
+          split; [exact Hw|]. intros y Hy. rewrite <- Hv in Hy. discriminate.
+    - (* PCacheReread *)
+      destruct Hp as [Hw Hx].
+      destruct (nth_error (cache T) i) as [w|] eqn:E.
+      + exists T, (PDone w). split; [reflexivity|]. split; [exact HI|]. split; [|exact HR]. simpl.
+        destruct (dspec D c) as [x|] eqn:Ed.
+        * specialize (Hx x eq_refl). inversion Hx. reflexivity.
+        * destruct w as [y|]; [|reflexivity].
+          assert (dspec D c = Some y) by (eapply Hc; eauto). congruence.
+      + exfalso. apply nth_error_None in E. pose proof (wired_bound _ _ Hw). lia.
+    - exists T, (PDone v). split; [reflexivity|]. split; [exact HI|]. split; [exact Hp | exact HR].
   Qed.
 
   (* ---------- termination: a measure that decreases with every step, whatever the shared words contain ---------- *)
   Definition measure (n : nat) (p : pc) : nat :=
     match p with
-    | PStart _ => 2 * n + 5
-    | PCacheRead _ => 2 * n + 4
-    | PPtrScan k _ => (n - k) + n + 3
-    | PNameScan k _ => (n - k) + 2
-    | PCacheWrite _ _ => 1
+    | PStart _ => 2 * n + 6
+    | PCacheRead _ => 2 * n + 5
+    | PPtrScan k _ => (n - k) + n + 4
+    | PNameScan k _ => (n - k) + 3
+    | PCacheWrite _ _ => 2
+    | PCacheReread _ => 1
     | PDone _ => 0
     end.
 
-  Lemma measure_finish : forall n slot v, measure n (finish slot v) <= 1.
+  Lemma measure_finish : forall n slot v, measure n (finish slot v) <= 2.
   Proof. intros n [i|] v; simpl; lia. Qed.
 
-  Lemma step_trips_length : forall c T p T' p', step cn wiring c T p = Some (T', p') ->
+  Lemma step_trips_length : forall c T p T' p', step cn wiring skipnull reread c T p = Some (T', p') ->
     List.length (trips T') = List.length (trips T).
   Proof.
     intros c T p T' p' H.
-    destruct p as [k | i | k slot | k slot | i v | v]; simpl in H.
+    destruct p as [k | i | k slot | k slot | i v | i | v]; simpl in H.
     - destruct k; [destruct (wired_slot wiring c)|]; inversion H; subst; reflexivity.
     - destruct (nth_error (cache T) i) as [[v|]|]; inversion H; subst; reflexivity.
     - destruct (nth_error (trips T) k) as [t|]; [destruct (opt_cls_eqb (t_memo t) c)|]; inversion H; subst; reflexivity.
     - destruct (nth_error (trips T) k) as [t|]; [destruct (String.eqb (t_name t) (cn c))|]; inversion H; subst; simpl;
         try reflexivity. unfold set_memo. apply length_set_nth.
-    - destruct (Nat.ltb i (List.length (cache T))); inversion H; subst; reflexivity.
+    - destruct v; [|destruct skipnull]; try (destruct (Nat.ltb i (List.length (cache T)))); inversion H; subst; reflexivity.
+    - destruct (nth_error (cache T) i); inversion H; subst; reflexivity.
     - inversion H; subst; reflexivity.
   Qed.
 
-  Lemma step_measure : forall c T p T' p', step cn wiring c T p = Some (T', p') -> (forall v, p <> PDone v) ->
+  Lemma step_measure : forall c T p T' p', step cn wiring skipnull reread c T p = Some (T', p') -> (forall v, p <> PDone v) ->
     measure (List.length (trips T)) p' < measure (List.length (trips T)) p.
   Proof.
     intros c T p T' p' H Hnd.
     set (n := List.length (trips T)).
-    destruct p as [k | i | k slot | k slot | i v | v]; simpl in H.
+    destruct p as [k | i | k slot | k slot | i v | i | v]; simpl in H.
     - destruct k; [destruct (wired_slot wiring c)|]; inversion H; subst; simpl; lia.
-    - destruct (nth_error (cache T) i) as [[v|]|]; inversion H; subst; simpl; lia.
+    - destruct (nth_error (cache T) i) as [[v|]|]; inversion H; subst; destruct reread; simpl; lia.
     - destruct (nth_error (trips T) k) as [t|] eqn:E.
       + assert (k < n) by (apply nth_error_Some; rewrite E; discriminate).
         destruct (opt_cls_eqb (t_memo t) c); inversion H; subst.
@@ -294,35 +355,37 @@ Section Proofs.
         * pose proof (measure_finish n slot (Some (t_inst t))). simpl. lia.
         * simpl. lia.
       + inversion H; subst. pose proof (measure_finish n slot None). simpl. lia.
-    - destruct (Nat.ltb i (List.length (cache T))); inversion H; subst. simpl. lia.
+    - destruct v; [|destruct skipnull]; try (destruct (Nat.ltb i (List.length (cache T)))); inversion H; subst;
+        destruct reread; simpl; lia.
+    - destruct (nth_error (cache T) i); inversion H; subst. simpl. lia.
     - exfalso. eapply Hnd; reflexivity.
   Qed.
 
   (* ---------- a lookup run alone ---------- *)
-  Lemma run_ok : forall fuel c T p, inv T -> pc_ok c p -> measure (List.length (trips T)) p <= fuel ->
-    exists T', run cn wiring fuel c T p = ROk T' (dspec D c) /\ inv T'.
+  Lemma run_ok : forall fuel c T p, inv T -> pc_ok T c p -> measure (List.length (trips T)) p <= fuel ->
+    exists T', run cn wiring skipnull reread fuel c T p = ROk T' (dspec D c) /\ inv T'.
   Proof.
     induction fuel as [|f IH]; intros c T p HI Hp Hm.
     - destruct p; simpl in Hm; try lia. simpl. exists T. simpl in Hp. subst. auto.
     - destruct (match p with PDone _ => true | _ => false end) eqn:Ed.
       + destruct p; try discriminate. simpl. exists T. simpl in Hp. subst. auto.
-      + destruct (step_ok c T p HI Hp) as [T' [p' [Hs [HI' Hp']]]].
+      + destruct (step_ok c T p HI Hp) as [T' [p' [Hs [HI' [Hp' _]]]]].
         assert (Hnd : forall v, p <> PDone v) by (intros v Hv; subst; discriminate).
         pose proof (step_measure _ _ _ _ _ Hs Hnd) as Hlt.
         pose proof (step_trips_length _ _ _ _ _ Hs) as Hlen.
-        assert (Hrun : run cn wiring (S f) c T p = run cn wiring f c T' p').
+        assert (Hrun : run cn wiring skipnull reread (S f) c T p = run cn wiring skipnull reread f c T' p').
         { clear Hlt Hm IH. destruct p; try discriminate Ed; simpl in Hs |- *; rewrite Hs; reflexivity. }
         rewrite Hrun. apply IH; auto. rewrite Hlen. lia.
   Qed.
 
   Theorem lookup_ok : forall k c T, inv T ->
-    exists T', lookup cn wiring k c T = ROk T' (dspec D c) /\ inv T'.
+    exists T', lookup cn wiring skipnull reread k c T = ROk T' (dspec D c) /\ inv T'.
   Proof.
     intros k c T HI. unfold lookup. apply run_ok; [exact HI | exact I | unfold fuel_for; simpl; lia].
   Qed.
 
   Theorem history_ok : forall h T, inv T ->
-    exists T', run_history cn wiring T h = Some (T', map (fun kc => dspec D (snd kc)) h) /\ inv T'.
+    exists T', run_history cn wiring skipnull reread T h = Some (T', map (fun kc => dspec D (snd kc)) h) /\ inv T'.
   Proof.
     induction h as [|[k c] r IH]; intros T HI; simpl.
     - exists T; auto.
@@ -333,14 +396,20 @@ Section Proofs.
   (* ---------- several threads, every schedule ---------- *)
   Definition log_ok (l : list (cls * option inst)) : Prop := Forall (fun e => snd e = dspec D (fst e)) l.
 
-  Definition thread_ok (th : thread) : Prop :=
-    match th_cur th with None => True | Some (c, p) => pc_ok c p end /\ log_ok (th_log th).
+  Definition thread_ok (T : trec) (th : thread) : Prop :=
+    match th_cur th with None => True | Some (c, p) => pc_ok T c p end /\ log_ok (th_log th).
 
-  Definition sys_inv (s : sys) : Prop := inv (fst s) /\ Forall thread_ok (snd s).
+  Lemma thread_ok_mono : forall T T' th, filled_stays T T' -> thread_ok T th -> thread_ok T' th.
+  Proof.
+    intros T T' th Hf [Hc Hl]. split; [|exact Hl].
+    destruct (th_cur th) as [[c p]|]; [|exact I]. eapply pc_ok_mono; eauto.
+  Qed.
+
+  Definition sys_inv (s : sys) : Prop := inv (fst s) /\ Forall (thread_ok (fst s)) (snd s).
 
   Lemma thread_step_nd : forall T th c p, th_cur th = Some (c, p) -> (forall v, p <> PDone v) ->
-    thread_step cn wiring T th =
-    match step cn wiring c T p with
+    thread_step cn wiring skipnull reread T th =
+    match step cn wiring skipnull reread c T p with
     | None => None
     | Some (T', p') => Some (T', mkThread (th_todo th) (Some (c, p')) (th_log th))
     end.
@@ -350,45 +419,47 @@ Section Proofs.
   Qed.
 
   Lemma thread_step_done : forall T th c v, th_cur th = Some (c, PDone v) ->
-    thread_step cn wiring T th = Some (T, mkThread (th_todo th) None (th_log th ++ [(c, v)])).
+    thread_step cn wiring skipnull reread T th = Some (T, mkThread (th_todo th) None (th_log th ++ [(c, v)])).
   Proof. intros T th c v E. unfold thread_step. rewrite E. reflexivity. Qed.
 
   Lemma pc_done_dec : forall p, (exists v, p = PDone v) \/ (forall v, p <> PDone v).
   Proof. destruct p; try (right; intros; discriminate). left; eexists; reflexivity. Qed.
 
-  Lemma thread_step_ok : forall T th, inv T -> thread_ok th ->
-    exists T' th', thread_step cn wiring T th = Some (T', th') /\ inv T' /\ thread_ok th'.
+  Lemma thread_step_ok : forall T th, inv T -> thread_ok T th ->
+    exists T' th', thread_step cn wiring skipnull reread T th = Some (T', th') /\ inv T' /\ thread_ok T' th' /\ filled_stays T T'.
   Proof.
     intros T th HI [Hc Hl].
     destruct (th_cur th) as [[c p]|] eqn:E.
     - destruct (pc_done_dec p) as [[v ->]|Hnd].
       + rewrite (thread_step_done T th c v E).
         exists T, (mkThread (th_todo th) None (th_log th ++ [(c, v)])).
-        split; [reflexivity|]. split; [exact HI|]. split; [exact I|].
+        split; [reflexivity|]. split; [exact HI|]. split; [|apply filled_stays_refl]. split; [exact I|].
         simpl. unfold log_ok. apply Forall_app. split; [exact Hl|]. constructor; [exact Hc | constructor].
       + rewrite (thread_step_nd T th c p E Hnd).
-        destruct (step_ok c T p HI Hc) as [T' [p' [Hs [HI' Hp']]]]. rewrite Hs.
+        destruct (step_ok c T p HI Hc) as [T' [p' [Hs [HI' [Hp' Hf]]]]]. rewrite Hs.
         exists T', (mkThread (th_todo th) (Some (c, p')) (th_log th)).
-        split; [reflexivity|]. split; [exact HI'|]. split; [exact Hp' | exact Hl].
+        split; [reflexivity|]. split; [exact HI'|]. split; [|exact Hf]. split; [exact Hp' | exact Hl].
     - unfold thread_step. rewrite E.
       destruct (th_todo th) as [|[k c] r].
-      + exists T, th. split; [reflexivity|]. split; [exact HI|]. split; [rewrite E; exact I | exact Hl].
+      + exists T, th. split; [reflexivity|]. split; [exact HI|]. split; [|apply filled_stays_refl].
+        split; [rewrite E; exact I | exact Hl].
       + exists T, (mkThread r (Some (c, PStart k)) (th_log th)).
-        split; [reflexivity|]. split; [exact HI|]. split; [exact I | exact Hl].
+        split; [reflexivity|]. split; [exact HI|]. split; [|apply filled_stays_refl]. split; [exact I | exact Hl].
   Qed.
 
-  Theorem sys_step_ok : forall s tid, sys_inv s -> exists s', sys_step cn wiring s tid = Some s' /\ sys_inv s'.
+  Theorem sys_step_ok : forall s tid, sys_inv s -> exists s', sys_step cn wiring skipnull reread s tid = Some s' /\ sys_inv s'.
   Proof.
     intros [T ths] tid [HI HF]. simpl in *.
     destruct (nth_error ths tid) as [th|] eqn:E.
-    - assert (Hth : thread_ok th) by (eapply Forall_forall; eauto; eapply nth_error_In; eauto).
-      destruct (thread_step_ok T th HI Hth) as [T' [th' [Hs [HI' Hth']]]]. rewrite Hs.
+    - assert (Hth : thread_ok T th) by (eapply Forall_forall; eauto; eapply nth_error_In; eauto).
+      destruct (thread_step_ok T th HI Hth) as [T' [th' [Hs [HI' [Hth' Hf]]]]]. rewrite Hs.
       exists (T', set_nth tid (fun _ => th') ths). split; auto. split; simpl; auto.
       apply Forall_set_nth; auto.
+      eapply Forall_impl; [|exact HF]. intros a Ha. eapply thread_ok_mono; eauto.
     - exists (T, ths). split; auto. split; auto.
   Qed.
 
-  Theorem run_sched_ok : forall sched s, sys_inv s -> exists s', run_sched cn wiring sched s = Some s' /\ sys_inv s'.
+  Theorem run_sched_ok : forall sched s, sys_inv s -> exists s', run_sched cn wiring skipnull reread sched s = Some s' /\ sys_inv s'.
   Proof.
     induction sched as [|tid r IH]; intros s HS; simpl.
     - exists s; auto.
@@ -398,7 +469,7 @@ Section Proofs.
   (* ---------- wait-freedom: the work left for a thread shrinks with each of its own steps and is not
                 touched by the steps of others ---------- *)
   Definition tmeasure (n : nat) (th : thread) : nat :=
-    List.length (th_todo th) * (2 * n + 7) +
+    List.length (th_todo th) * (2 * n + 8) +
     match th_cur th with None => 0 | Some (_, p) => measure n p + 1 end.
 
   Definition finished (th : thread) : Prop := th_todo th = [] /\ th_cur th = None.
@@ -407,7 +478,7 @@ Section Proofs.
   Definition script (th : thread) : list cls :=
     map fst (th_log th) ++ match th_cur th with Some (c, _) => [c] | None => [] end ++ map snd (th_todo th).
 
-  Lemma thread_step_progress : forall T th T' th', thread_step cn wiring T th = Some (T', th') ->
+  Lemma thread_step_progress : forall T th T' th', thread_step cn wiring skipnull reread T th = Some (T', th') ->
     List.length (trips T') = List.length (trips T) /\ script th' = script th /\
     (tmeasure (List.length (trips T)) th = 0 \/ tmeasure (List.length (trips T)) th' < tmeasure (List.length (trips T)) th).
   Proof.
@@ -420,7 +491,7 @@ Section Proofs.
         * rewrite map_app. simpl. rewrite <- app_assoc. reflexivity.
         * right. lia.
       + rewrite (thread_step_nd T th c p E Hnd) in H.
-        destruct (step cn wiring c T p) as [[T1 p1]|] eqn:Hs; [|discriminate].
+        destruct (step cn wiring skipnull reread c T p) as [[T1 p1]|] eqn:Hs; [|discriminate].
         inversion H; subst.
         pose proof (step_trips_length _ _ _ _ _ Hs) as Hlen.
         pose proof (step_measure _ _ _ _ _ Hs Hnd) as Hlt.
@@ -440,7 +511,7 @@ Section Proofs.
     destruct (th_todo th); [auto|]. simpl in H. lia.
   Qed.
 
-  Lemma finished_step_id : forall T th, finished th -> thread_step cn wiring T th = Some (T, th).
+  Lemma finished_step_id : forall T th, finished th -> thread_step cn wiring skipnull reread T th = Some (T, th).
   Proof. intros T th [H1 H2]. unfold thread_step. rewrite H2, H1. reflexivity. Qed.
 
   (* every thread occurs in the schedule at least as often as it has work left *)
@@ -448,7 +519,7 @@ Section Proofs.
     forall tid th, nth_error ths tid = Some th -> tmeasure n th <= count_occ Nat.eq_dec sched tid.
 
   Theorem sched_complete : forall sched s, sys_inv s -> enough (List.length (trips (fst s))) sched (snd s) ->
-    exists s', run_sched cn wiring sched s = Some s' /\ sys_inv s' /\
+    exists s', run_sched cn wiring skipnull reread sched s = Some s' /\ sys_inv s' /\
       List.length (snd s') = List.length (snd s) /\
       forall tid th th', nth_error (snd s) tid = Some th -> nth_error (snd s') tid = Some th' ->
         finished th' /\ script th' = script th.
@@ -459,12 +530,12 @@ Section Proofs.
       eapply tmeasure_0_finished. pose proof (He tid th Hn) as Hle. simpl in Hle.
       apply Nat.le_0_r in Hle. exact Hle.
     - destruct (sys_step_ok (T, ths) t HS) as [s1 [H1 HS1]].
-      assert (Hrs : run_sched cn wiring (t :: r) (T, ths) = run_sched cn wiring r s1)
+      assert (Hrs : run_sched cn wiring skipnull reread (t :: r) (T, ths) = run_sched cn wiring skipnull reread r s1)
         by (cbn [run_sched]; rewrite H1; reflexivity).
       rewrite Hrs. clear Hrs.
       unfold sys_step in H1. cbn beta iota in H1.
       destruct (nth_error ths t) as [th0|] eqn:Et.
-      + destruct (thread_step cn wiring T th0) as [[T1 th1]|] eqn:Hts; [|discriminate].
+      + destruct (thread_step cn wiring skipnull reread T th0) as [[T1 th1]|] eqn:Hts; [|discriminate].
         inversion H1; subst s1. clear H1.
         destruct (thread_step_progress _ _ _ _ Hts) as [Hlen [Hscr Hprog]].
         destruct (IH (T1, set_nth t (fun _ => th1) ths) HS1) as [s' [Hr [HS' [Hl' Hfin]]]].
@@ -496,10 +567,10 @@ Section Proofs.
   Qed.
 
   (* the log of a finished thread that started idle is exactly the declared answers to its script *)
-  Lemma finished_log : forall th, thread_ok th -> finished th ->
+  Lemma finished_log : forall T th, thread_ok T th -> finished th ->
     th_log th = map (fun c => (c, dspec D c)) (script th).
   Proof.
-    intros th [_ Hl] [Ht Hc]. unfold script. rewrite Ht, Hc. simpl. rewrite app_nil_r.
+    intros T th [_ Hl] [Ht Hc]. unfold script. rewrite Ht, Hc. simpl. rewrite app_nil_r.
     unfold log_ok in Hl. induction (th_log th) as [|[c v] r IH]; simpl; auto.
     inversion Hl; subst. simpl in *. f_equal; [f_equal; assumption | apply IH; assumption].
   Qed.
@@ -534,53 +605,54 @@ Qed.
 Section FromCold.
   Variable cn : cls -> string.
   Variable wiring : list (nat * cls).
+  Variable skipnull reread : bool.
   Variable ncache : nat.
   Hypothesis wiring_nodup : NoDup (map fst wiring).
   Hypothesis wiring_bound : forall i c, In (i, c) wiring -> i < ncache.
   Variable D : list (string * inst).
 
   Lemma every_history_from_cold : forall h,
-    exists T', run_history cn wiring (cold_type ncache D) h = Some (T', map (fun kc => dspec cn D (snd kc)) h)
+    exists T', run_history cn wiring skipnull reread (cold_type ncache D) h = Some (T', map (fun kc => dspec cn D (snd kc)) h)
                /\ inv cn wiring ncache D T'.
   Proof. intro h. apply history_ok; auto. apply inv_cold_type. Qed.
 
   Lemma every_history_from_reachable : forall T h, inv cn wiring ncache D T ->
-    exists T', run_history cn wiring T h = Some (T', map (fun kc => dspec cn D (snd kc)) h)
+    exists T', run_history cn wiring skipnull reread T h = Some (T', map (fun kc => dspec cn D (snd kc)) h)
                /\ inv cn wiring ncache D T'.
   Proof. intros T h H. apply history_ok; auto. Qed.
 
-  Lemma idle_threads_ok : forall scripts, Forall (thread_ok cn wiring D) (map idle_thread scripts).
+  Lemma idle_threads_ok : forall T scripts, Forall (thread_ok cn wiring D T) (map idle_thread scripts).
   Proof.
-    intro scripts. apply Forall_forall. intros th Hin. apply in_map_iff in Hin. destruct Hin as [scr [<- _]].
+    intros T scripts. apply Forall_forall. intros th Hin. apply in_map_iff in Hin. destruct Hin as [scr [<- _]].
     split; simpl; [exact I | constructor].
   Qed.
 
   Lemma every_schedule_from_cold : forall scripts sched,
-    exists s', run_sched cn wiring sched (cold_type ncache D, map idle_thread scripts) = Some s' /\
+    exists s', run_sched cn wiring skipnull reread sched (cold_type ncache D, map idle_thread scripts) = Some s' /\
                inv cn wiring ncache D (fst s') /\
                forall th, In th (snd s') -> Forall (fun e => snd e = dspec cn D (fst e)) (th_log th).
   Proof.
     intros scripts sched.
-    destruct (run_sched_ok cn wiring ncache wiring_nodup wiring_bound D sched (cold_type ncache D, map idle_thread scripts))
+    destruct (run_sched_ok cn wiring skipnull reread ncache wiring_nodup wiring_bound D sched (cold_type ncache D, map idle_thread scripts))
       as [s' [Hr [HI HF]]].
     - split; simpl; [apply inv_cold_type | apply idle_threads_ok].
     - exists s'. split; [exact Hr|]. split; [exact HI|].
       intros th Hin. eapply Forall_forall in HF; eauto. destruct HF as [_ Hl]. exact Hl.
   Qed.
 
-  (* every thread that gets  (number of its lookups) * (2 * #instances + 7)  turns finishes its whole script with the
+  (* every thread that gets  (number of its lookups) * (2 * #instances + 8)  turns finishes its whole script with the
      declared answers, whatever the other threads do and however the turns are interleaved *)
   Lemma wait_free_from_cold : forall scripts sched,
     (forall tid scr, nth_error scripts tid = Some scr ->
-       List.length scr * (2 * List.length D + 7) <= count_occ Nat.eq_dec sched tid) ->
-    exists s', run_sched cn wiring sched (cold_type ncache D, map idle_thread scripts) = Some s' /\
+       List.length scr * (2 * List.length D + 8) <= count_occ Nat.eq_dec sched tid) ->
+    exists s', run_sched cn wiring skipnull reread sched (cold_type ncache D, map idle_thread scripts) = Some s' /\
                List.length (snd s') = List.length scripts /\
                forall tid scr th', nth_error scripts tid = Some scr -> nth_error (snd s') tid = Some th' ->
                  th_todo th' = [] /\ th_cur th' = None /\
                  th_log th' = map (fun kc => (snd kc, dspec cn D (snd kc))) scr.
   Proof.
     intros scripts sched He.
-    destruct (sched_complete cn wiring ncache wiring_nodup wiring_bound D sched (cold_type ncache D, map idle_thread scripts))
+    destruct (sched_complete cn wiring skipnull reread ncache wiring_nodup wiring_bound D sched (cold_type ncache D, map idle_thread scripts))
       as [s' [Hr [[HI HF] [Hl Hfin]]]].
     - split; simpl; [apply inv_cold_type | apply idle_threads_ok].
     - simpl. intros tid th Hn. rewrite nth_error_map in Hn.
@@ -591,8 +663,8 @@ Section FromCold.
       destruct (Hfin tid (idle_thread scr) th') as [[Ht Hc] Hs]; auto.
       { simpl. rewrite nth_error_map. rewrite Hn. reflexivity. }
       split; [exact Ht|]. split; [exact Hc|].
-      assert (Hok : thread_ok cn wiring D th') by (eapply Forall_forall; eauto; eapply nth_error_In; eauto).
-      rewrite (finished_log cn wiring D th' Hok (conj Ht Hc)). rewrite Hs.
+      assert (Hok : thread_ok cn wiring D (fst s') th') by (eapply Forall_forall; eauto; eapply nth_error_In; eauto).
+      rewrite (finished_log cn wiring D (fst s') th' Hok (conj Ht Hc)). rewrite Hs.
       unfold script, idle_thread; simpl. rewrite map_map. reflexivity.
   Qed.
 
@@ -600,28 +672,28 @@ Section FromCold.
   Variable imem : inst -> nat -> bool.
 
   Lemma method_call_from_reachable : forall T c m, inv cn wiring ncache D T ->
-    exists T' v, lookup cn wiring KInstance c T = ROk T' v /\ inv cn wiring ncache D T' /\
+    exists T' v, lookup cn wiring skipnull reread KInstance c T = ROk T' v /\ inv cn wiring ncache D T' /\
       method_result imem true v m =
         match dspec cn D c with
         | None => MRaise ClassError                                (* class not implemented *)
         | Some i => if imem i m then MInvoke i m else MRaise ClassError   (* member left empty *)
         end.
   Proof.
-    intros T c m HI. destruct (lookup_ok cn wiring ncache wiring_nodup wiring_bound D KInstance c T HI) as [T' [H1 HI']].
+    intros T c m HI. destruct (lookup_ok cn wiring skipnull reread ncache wiring_nodup wiring_bound D KInstance c T HI) as [T' [H1 HI']].
     exists T', (dspec cn D c). split; [exact H1|]. split; [exact HI'|].
     unfold method_result. destruct (dspec cn D c); reflexivity.
   Qed.
 
   Lemma implements_method_from_reachable : forall T c m, inv cn wiring ncache D T ->
-    exists T' v, lookup cn wiring KScan c T = ROk T' v /\ inv cn wiring ncache D T' /\
+    exists T' v, lookup cn wiring skipnull reread KScan c T = ROk T' v /\ inv cn wiring ncache D T' /\
       implements_method_result imem v m = match dspec cn D c with None => false | Some i => imem i m end.
   Proof.
-    intros T c m HI. destruct (lookup_ok cn wiring ncache wiring_nodup wiring_bound D KScan c T HI) as [T' [H1 HI']].
+    intros T c m HI. destruct (lookup_ok cn wiring skipnull reread ncache wiring_nodup wiring_bound D KScan c T HI) as [T' [H1 HI']].
     exists T', (dspec cn D c). auto.
   Qed.
 
   Lemma cast_from_reachable : forall T ccast tself ttype, inv cn wiring ncache D T ->
-    exists T' v, lookup cn wiring KInstance ccast T = ROk T' v /\ inv cn wiring ncache D T' /\
+    exists T' v, lookup cn wiring skipnull reread KInstance ccast T = ROk T' v /\ inv cn wiring ncache D T' /\
       cast_result imem v tself ttype =
         match dspec cn D ccast with
         | Some i => if imem i 0 then CCustom i else if Nat.eqb tself ttype then CSelf else CRaise ValueError
@@ -629,7 +701,7 @@ Section FromCold.
         end.
   Proof.
     intros T ccast tself ttype HI.
-    destruct (lookup_ok cn wiring ncache wiring_nodup wiring_bound D KInstance ccast T HI) as [T' [H1 HI']].
+    destruct (lookup_ok cn wiring skipnull reread ncache wiring_nodup wiring_bound D KInstance ccast T HI) as [T' [H1 HI']].
     exists T', (dspec cn D ccast). auto.
   Qed.
 End FromCold.
@@ -785,11 +857,11 @@ Qed.
    that class, by class IDENTITY *)
 Lemma builtin_every_history : forall tname insts h, In (tname, insts) builtin_types ->
   Forall (fun kc => snd kc < List.length builtin_objects) h ->
-  exists T', run_history cn_b wiring_b (cold_type cello_cache_num (builtin_decl insts)) h =
+  exists T', run_history cn_b wiring_b cache_write_skips_null cache_fetch_rereads (cold_type cello_cache_num (builtin_decl insts)) h =
              Some (T', map (fun kc => decl_lookup (builtin_decl_ids insts) (snd kc)) h).
 Proof.
   intros tname insts h Hin HF.
-  destruct (every_history_from_cold cn_b wiring_b cello_cache_num wiring_b_nodup wiring_b_bound (builtin_decl insts) h)
+  destruct (every_history_from_cold cn_b wiring_b cache_write_skips_null cache_fetch_rereads cello_cache_num wiring_b_nodup wiring_b_bound (builtin_decl insts) h)
     as [T' [H _]].
   exists T'. rewrite H. f_equal. f_equal. apply map_ext_in. intros [k c] Hkc. simpl.
   destruct generated_facts as [_ [_ [_ [Hnd [Hnames _]]]]].
@@ -803,7 +875,7 @@ Qed.
    instance; with a slot outside the cache area the write lands outside it *)
 Lemma shared_slot_breaks_lookup : exists cn wiring D h,
   ~ NoDup (map fst wiring) /\
-  exists T' r, run_history cn wiring (cold_type 2 D) h = Some (T', r) /\ r <> map (fun kc => dspec cn D (snd kc)) h.
+  exists T' r, run_history cn wiring false false (cold_type 2 D) h = Some (T', r) /\ r <> map (fun kc => dspec cn D (snd kc)) h.
 Proof.
   exists (fun c => if Nat.eqb c 5 then "A" else "B")%string, [(0, 5); (0, 7)], [("A", 1); ("B", 2)]%string,
          [(KInstance, 5); (KInstance, 7)].
@@ -813,5 +885,56 @@ Proof.
 Qed.
 
 Lemma slot_outside_cache_corrupts : exists cn wiring D c,
-  lookup cn wiring KInstance c (cold_type 1 D) = RCrash.
+  lookup cn wiring false false KInstance c (cold_type 1 D) = RCrash.
 Proof. exists (fun _ => "A"%string), [(1, 5)], [("A"%string, 1)], 5. vm_compute. reflexivity. Qed.
+
+(* ================= run-time types: a new type starts cold whatever block it is built in ================= *)
+
+Lemma fresh_type_is_cold : forall zeroed cleared ncache garbage D,
+  zeroed = true \/ ncache <= cleared -> List.length garbage = ncache ->
+  fresh_type zeroed cleared ncache garbage D = cold_type ncache D.
+Proof.
+  intros zeroed cleared ncache garbage D H Hl. unfold fresh_type, cold_type.
+  destruct zeroed; [reflexivity|]. destruct H as [H|H]; [discriminate|].
+  rewrite Nat.min_r by exact H. rewrite skipn_all2 by lia. rewrite app_nil_r. reflexivity.
+Qed.
+
+Definition fresh_check : bool := type_alloc_zeroed || Nat.leb cello_cache_num type_new_cleared_words.
+
+Lemma fresh_check_true : fresh_check = true.
+Proof. vm_compute. reflexivity. Qed.
+
+Lemma generated_fresh_type_cold : forall garbage D, List.length garbage = cello_cache_num ->
+  fresh_type type_alloc_zeroed type_new_cleared_words cello_cache_num garbage D = cold_type cello_cache_num D.
+Proof.
+  intros garbage D Hl. apply fresh_type_is_cold; [|exact Hl].
+  pose proof fresh_check_true as H. unfold fresh_check in H. apply orb_true_iff in H.
+  destruct H as [H|H]; [left; exact H | right; apply Nat.leb_le; exact H].
+Qed.
+
+(* lookups on a freshly built run-time type depend on its own declaration only, not on what the block held before *)
+Lemma fresh_type_every_history : forall cn wiring skipnull reread,
+  NoDup (map fst wiring) -> (forall i c, In (i, c) wiring -> i < cello_cache_num) ->
+  forall garbage D h, List.length garbage = cello_cache_num ->
+  exists T', run_history cn wiring skipnull reread
+               (fresh_type type_alloc_zeroed type_new_cleared_words cello_cache_num garbage D) h
+             = Some (T', map (fun kc => dspec cn D (snd kc)) h).
+Proof.
+  intros cn wiring skipnull reread Hn Hb garbage D h Hl. rewrite (generated_fresh_type_cold garbage D Hl).
+  destruct (every_history_from_cold cn wiring skipnull reread cello_cache_num Hn Hb D h) as [T' [H _]].
+  exists T'. exact H.
+Qed.
+
+(* clearing only part of the cache words of a recycled block is not enough *)
+Lemma partial_clear_breaks_fresh_type : exists cn wiring garbage D h,
+  NoDup (map fst wiring) /\ (forall i c, In (i, c) wiring -> i < 2) /\ List.length garbage = 2 /\
+  exists T' r, run_history cn wiring false false (fresh_type false 1 2 garbage D) h = Some (T', r) /\
+               r <> map (fun kc => dspec cn D (snd kc)) h.
+Proof.
+  exists (fun c => if Nat.eqb c 5 then "A" else "B")%string, [(0, 5); (1, 7)], [Some 40; Some 41], [("A", 1)]%string,
+         [(KInstance, 7)].
+  split; [repeat constructor; simpl; intuition discriminate|].
+  split; [intros i c [H|[H|[]]]; inversion H; subst; auto|].
+  split; [reflexivity|].
+  eexists. eexists. split; [vm_compute; reflexivity | vm_compute; discriminate].
+Qed.
